@@ -237,7 +237,7 @@ def run_c07(ctx, replay=None):
         # 1. exhaustive: all interleavings at lock-scope granularity
         cfgs = [("1 query, <=%d replies of every kind, 2 nodes" % (3 if thorough else 2),
                  c07_mc_cfg(1, 2, 3 if thorough else 2, 2, [1, 2], [0, 1], [0, 1])),
-                ("2 concurrent queries, <=2 acks", c07_mc_cfg(2, 2 if thorough else 1, 2, 2 if thorough else 1, [1, 2],
+                ("2 concurrent queries, <=2 acks", c07_mc_cfg(2, 1, 2, 2 if thorough else 1, [1, 2],
                                                                [0, 1, 2] if thorough else [1, 2], [1]))]
         for desc, cfg in cfgs:
             r = vlib.tlc(ctx, "MC_QueryReply", cfg, timeout=3000)
